@@ -21,6 +21,11 @@ META = {
         text="C12_pack_entry / C12_reject_iff / C12_only_named / C12_flatten / C12_pack / C12_cli_stack are proved for every filter setting and every entry (no enumeration). The Lean filter functions are compared with filters.Apply*Filter on all complete settings x an entry zoo, and end to end through unpackTar.",
         note="Trusted: Lean kernel; the filt/unpack streams. The warm-cache clause (reject rules with an already shelved ware) is decided by the cache stream.",
     ),
+    "C16": dict(
+        technique="Lean 4 theorems (first holder wins, error kinds, usage) by induction over the warehouse list + exhaustive differential correspondence",
+        text="C16_first / C16_errors / C16_usage are proved for lists of any length about the model of PickReader and of the controllers' answers; the model is compared with the real PickReader on every list up to length 2/3 over 16 warehouse kinds (real directories, loopback HTTP).",
+        note="Trusted: Lean kernel; the pick stream; net/http.",
+    ),
     "C17": dict(
         technique="Lean 4 theorems (exit-code table total/injective on rio categories, header conversion never panics) + differential correspondence with recover()",
         text="The error/exit-code table and the category filter are modelled and proved total and injective on documented categories; the tar unpack model returns ok|err|panic and is compared with the real unpackTar on hostile streams; the oracle demands no panic and only rio-* categories.",
